@@ -143,3 +143,36 @@ Proof.
   eapply (step_inv cell header view hdr_of (chase_full fuel) (chase_full_frame fuel) (chase_full_ge2 fuel)
             nxt_txid older_rel older_rel_nxt m e m' Hinv Hstep).
 Qed.
+
+(* ---- the recovery of the crash theorem selects the header exactly as readValidMeta does ---- *)
+(* [select] (CrashModel) instantiated with the concrete header validation and the modular txid order picks
+   the slot [choose] (Model/Meta.v, the function validated against readValidMeta) picks on the same two
+   header pages, and recovers from that header. *)
+Theorem select_is_choose (d : cdisk) pg0 pg1 :
+  d 0 = Some pg0 -> d 1 = Some pg1 ->
+  match choose pg0 pg1 with
+  | SelErr => select cell header hdr_of txid_newer d = None
+  | SelOk a t =>
+      select cell header hdr_of txid_newer d =
+      Some (negb (a =? 0), t, decode_header (if a =? 0 then pg0 else pg1))
+  end.
+Proof.
+  intros H0 H1. unfold select, choose, hdr_of. rewrite H0, H1.
+  destruct (valid_slot pg0) eqn:V0, (valid_slot pg1) eqn:V1; cbn [negb Z.eqb]; try reflexivity.
+  destruct (txid_newer (h_txid (decode_header pg0)) (h_txid (decode_header pg1))); reflexivity.
+Qed.
+
+Corollary recover_uses_chosen_header fuel (d : cdisk) pg0 pg1 a t :
+  d 0 = Some pg0 -> d 1 = Some pg1 -> choose pg0 pg1 = SelOk a t ->
+  mon_recover fuel d = option_map fst (chase_full fuel d (decode_header (if a =? 0 then pg0 else pg1))).
+Proof.
+  intros H0 H1 Hc. pose proof (select_is_choose d pg0 pg1 H0 H1) as Hs. rewrite Hc in Hs.
+  unfold mon_recover, recover. rewrite Hs. reflexivity.
+Qed.
+
+Corollary recover_fails_iff_no_valid_header fuel (d : cdisk) pg0 pg1 :
+  d 0 = Some pg0 -> d 1 = Some pg1 -> choose pg0 pg1 = SelErr -> mon_recover fuel d = None.
+Proof.
+  intros H0 H1 Hc. pose proof (select_is_choose d pg0 pg1 H0 H1) as Hs. rewrite Hc in Hs.
+  unfold mon_recover, recover. rewrite Hs. reflexivity.
+Qed.
